@@ -3,6 +3,7 @@
 //! outputs with an independent decoder, log one event per call. Contains no expected values and no
 //! property logic: every accept/reject decision is taken by TLC on the TLA+ specification.
 
+mod apidrv;
 mod certdrv;
 mod clidrv;
 mod csrdrv;
@@ -68,6 +69,7 @@ fn main() {
 		"panic-parsers" => panicdrv::run_parsers(&args[2], &args[3]),
 		"secrets" => secretdrv::run(&args[2], &args[3]),
 		"sessions" => sessiondrv::run_sessions(&args[2], &args[3]),
+		"api" => apidrv::run(&args[2], &args[3]),
 		"dn-cases" => dndrv::run_cases(&args[2], &args[3]),
 		"dn-random" => dndrv::run_random(&args[2], args[3].parse().unwrap(), args[4].parse().unwrap()),
 		other => {
